@@ -91,8 +91,8 @@ CORPUS = [
      "new": "        cls = type(self)\n        if \"_shared_states\" not in cls.__dict__:\n            cls._shared_states = {}\n        self._states_for_instance: Dict[State, State] = cls._shared_states\n\n        self._listeners: Dict[Any, Any] = {}\n        \"\"\"Listeners that provides attributes to be used as callbacks.\"\"\"",
      "what": "instance-state cache shared by all instances of a class"},
     {"id": "m-clone-resets-allow", "prop": "C17", "file": "statemachine/statemachine.py",
-     "old": "        rtc = state.pop(\"_rtc\")\n        self.__dict__.update(state)",
-     "new": "        rtc = state.pop(\"_rtc\")\n        state[\"allow_event_without_transition\"] = False\n        self.__dict__.update(state)",
+     "old": "        rtc = state.pop(\"_rtc\")\n",
+     "new": "        rtc = state.pop(\"_rtc\")\n        state[\"allow_event_without_transition\"] = False\n",
      "what": "a clone silently resets allow_event_without_transition"},
 ]
 
